@@ -28,8 +28,8 @@ type FuncCheck struct {
 type PropDef struct {
 	ID          string
 	Funcs       []FuncCheck
-	Asm         bool // include the amd64 assembly obligations (node16)
-	Lemmas      bool // include the induction proofs of the counting lemmas
+	Asm         bool                           // include the amd64 assembly obligations (node16)
+	Lemmas      bool                           // include the induction proofs of the counting lemmas
 	Static      func(p *Program) []*Obligation // solver-free obligations over the SSA
 	Trusted     []string
 	Assumptions []string
@@ -187,6 +187,7 @@ func cmdCheck(args []string) int {
 	}
 	st := lastSymtab
 	nodeReplays := 0
+	treeWitness := map[string]map[string]any{}
 	for _, v := range viols {
 		nviol++
 		o := v.o
@@ -202,7 +203,7 @@ func cmdCheck(args []string) int {
 		rep := map[string]any{"property": def.ID, "obligation": o.Name, "function": o.Func, "kind": o.Kind, "position": o.Pos,
 			"clause": o.Note, "solver_result": o.Result, "solver": o.Solver, "solver_output": o.Stdout, "query": smtPath}
 		confirmed := false
-		if (o.Result == "sat" && o.Model != "") || nodeFnRe.MatchString(o.Func) {
+		if (o.Result == "sat" && o.Model != "") || nodeFnRe.MatchString(o.Func) || len(witnessClasses[def.ID]) > 0 {
 			var rr map[string]any
 			if o.Result == "sat" && o.Model != "" {
 				rep["model"] = modelSummary(o.Model)
@@ -212,6 +213,16 @@ func cmdCheck(args []string) int {
 				// node-level counterexample: rebuild the node from the model and run the real operation
 				if rr = tryReplayNode(o, o.Query(st)); rr != nil {
 					nodeReplays++
+				}
+			}
+			if rr == nil && !nodeFnRe.MatchString(o.Func) && len(witnessClasses[def.ID]) > 0 {
+				// tree level: one witness search per tree kind and run
+				kind := treeKindOf(o.Func)
+				if cached, ok := treeWitness[kind]; ok {
+					rr = cached
+				} else {
+					rr = witnessSearchTree(def.ID, o)
+					treeWitness[kind] = rr
 				}
 			}
 			if rr != nil {
